@@ -101,7 +101,18 @@ pub fn make_p1(role: Role, scheme: Scheme, offset: usize, high: bool, fill_seed:
 /// 0 = time 0 + a typical version for the role, 1 = all zero, 2 = random time + zero version,
 /// 3 = random time and version.
 pub fn make_p1_with_header(role: Role, scheme: Scheme, offset: usize, high: bool, fill_seed: u64, header: u64) -> Vec<u8> {
-    let mut p = expand_bytes(fill_seed ^ 0x51, PKT);
+    make_p1_full(role, scheme, offset, high, fill_seed, header, 0)
+}
+
+/// `fill` selects the "random" content: 0 = pseudo-random, 1 = all zero, 2 = all 0xFF,
+/// 3 = counting pattern (every filling is legal: the bytes carry no meaning).
+pub fn make_p1_full(role: Role, scheme: Scheme, offset: usize, high: bool, fill_seed: u64, header: u64, fill: u64) -> Vec<u8> {
+    let mut p = match fill {
+        1 => vec![0u8; PKT],
+        2 => vec![0xFFu8; PKT],
+        3 => expand_bytes(0, PKT),
+        _ => expand_bytes(fill_seed ^ 0x51, PKT),
+    };
     match header {
         0 => {
             p[0..4].copy_from_slice(&[0, 0, 0, 0]);
